@@ -74,12 +74,7 @@ pub fn with_local<R>(f: impl FnOnce(&mut Local) -> R) -> Option<R> {
 pub fn set_p(p: i64) {
     with_local(|l| l.p = p);
 }
-pub fn cur_p() -> i64 {
-    with_local(|l| l.p).unwrap_or(0)
-}
-pub fn note(v: Value) {
-    with_local(|l| l.ctx.push(v));
-}
+
 
 fn flush_inv() {
     with_local(|l| {
